@@ -341,6 +341,60 @@ def check_quoted_hole(ctx):
     ctx.extra['tainted_params'] = {q: v for q, v in tn.params.items() if v}
 
 
+def check_serialized(ctx):
+    """A rule value written through a serializer is written unchanged."""
+    prog = ctx.prog
+    mod = prog.module(GEN)
+    n = 0
+    for f in mod.functions.values():
+        for x in walk_no_nested(f.node):
+            if not (isinstance(x, ast.BinOp) and isinstance(x.op, ast.Mod)
+                    and isinstance(x.left, ast.Constant)
+                    and isinstance(x.left.value, str)
+                    and x.left.value.startswith('"%(name)s":')
+                    and isinstance(x.right, ast.Dict)):
+                continue
+            val = None
+            for k, v in zip(x.right.keys, x.right.values):
+                if is_const(k, 'check_str'):
+                    val = v
+            if val is None or not isinstance(val, ast.Call):
+                continue
+            n += 1
+            call = val
+            g = prog.callee_of(f, call)
+            ok, detail = True, 'written as the JSON form of the value itself'
+            arg = call.args[0] if call.args else None
+            if g is not None:
+                body = [b for b in g.node.body if not (
+                    isinstance(b, ast.Expr)
+                    and isinstance(b.value, ast.Constant))]
+                if not (len(body) == 1 and isinstance(body[0], ast.Return)
+                        and isinstance(body[0].value, ast.Call)
+                        and (prog.resolve(g.module, body[0].value.func)
+                             or '').endswith(SERIALIZERS)
+                        and len(body[0].value.args) == 1
+                        and U(body[0].value.args[0]) == g.params[0]
+                        and not any(k.arg == 'indent'
+                                    for k in body[0].value.keywords)):
+                    ok = False
+                    detail = 'the helper %s does more than serialise its ' \
+                        'argument: the rule value written to the file is ' \
+                        'not the value the operator had' % g.name
+            elif not (prog.resolve(f.module, call.func) or '').endswith(
+                    SERIALIZERS):
+                ok = False
+                detail = 'the rule value goes through %s, which is not a ' \
+                    'serializer' % U(call.func)
+            if ok and not isinstance(arg, (ast.Name, ast.Attribute)):
+                ok = False
+                detail = 'the serialised expression %s is not the rule ' \
+                    'value itself' % (U(arg) if arg is not None else None)
+            ctx.ob('C18.SERIALIZED', ok, ctx.where(f.module, x), f.qual,
+                   'rule value ' + U(val)[:60], detail)
+    ctx.floor('C18.SERIALIZED', n, 1, 'serialised rule values')
+
+
 def check_pop_guard(ctx):
     prog = ctx.prog
     mod = prog.module(GEN)
@@ -570,8 +624,17 @@ def check(ctx):
                 'list-redundant and policy-upgrade.')
     ctx.assume('decision preservation over all files is not decided')
     check_quoted_hole(ctx)
+    check_serialized(ctx)
     check_pop_guard(ctx)
     check_keep_override(ctx)
     check_merge(ctx)
     check_redundant(ctx)
+    # what "equal" means for redundancy (= C15.EQ)
+    from . import c15
+    nf, no = len(ctx.findings), len(ctx.obligations)
+    c15.check_eq(ctx)
+    for fd in ctx.findings[nf:]:
+        fd.rule = 'C18.REDUNDANT(' + fd.rule + ')'
+    for o in ctx.obligations[no:]:
+        o['rule'] = 'C18.REDUNDANT(' + o['rule'] + ')'
     check_upgrade(ctx)
